@@ -290,6 +290,7 @@ package pongo2
 //@ extern (reflect.Value).Uint(v) (r0)
 //@   pure as RVUint
 //@   requires {C01,C08} @kind 7 <= RVKind(v) && RVKind(v) <= 12
+//@   ensures 0 <= r0 && r0 <= 18446744073709551615
 //@ extern (reflect.Value).Float(v) (r0)
 //@   pure as RVFloat
 //@   requires {C01,C08} @kind RVKind(v) == 13 || RVKind(v) == 14
@@ -308,6 +309,10 @@ package pongo2
 //@ extern reflect.ValueOf(i) (r0)
 //@   pure as RVOf
 //@   ensures (i == nil) == (RVKind(r0) == 0)
+//@   ensures typeis(i, "int") ==> (RVKind(r0) == 2 && RVInt(r0) == unbox(i, "int"))
+//@   ensures typeis(i, "float64") ==> (RVKind(r0) == 14 && RVFloat(r0) == unbox(i, "float64"))
+//@   ensures typeis(i, "bool") ==> (RVKind(r0) == 1 && RVBool(r0) == unbox(i, "bool"))
+//@   ensures typeis(i, "string") ==> (RVKind(r0) == 24 && RVString(r0) == unbox(i, "string") && RVLen(r0) == len(unbox(i, "string")))
 //@ extern (reflect.Value).MapKeys(v) (r0)
 //@   requires {C01,C08} @kind RVKind(v) == 21
 //@   ensures fresh(r0)
@@ -579,6 +584,7 @@ package pongo2
 //@ func (*tagMacroNode).call
 //@   requires {C13} @entered-with-sane-depth 0 <= ctx.macroDepth && ctx.macroDepth <= maxMacroDepth
 //@   at (*NodeWrapper).Execute requires {C13} @depth-guarded 0 < ctx.macroDepth && ctx.macroDepth <= maxMacroDepth
+//@   at IEvaluator.Evaluate requires {C13} @defaults-evaluated-under-the-guard ctx.macroDepth == old(ctx.macroDepth) + 1 && ctx.macroDepth <= maxMacroDepth
 //@   at (*NodeWrapper).Execute requires {C13} @not-with-too-many-arguments len(args) <= len(node.argsOrder)
 //@   at mapupdate#0 requires {C13} @defaults-for-declared-parameters m == argsCtx && has(node.args, k)
 //@   at mapupdate#1 requires {C13} @defaults-for-declared-parameters m == argsCtx && has(node.args, k)
@@ -627,6 +633,8 @@ package pongo2
 //@ func (*tagFilterNode).Execute
 //@   at ApplyFilter requires {C19} @chain-in-order arg0 == node.filterChain[rangeindex + 1].name
 //@   at ApplyFilter requires {C19} @on-previous-result arg1 == value
+//@   at ApplyFilter requires {C19} @own-parameter-or-the-nil-value (call.paramExpr != nil ==> arg2 == lastresult("IEvaluator.Evaluate")) && (call.paramExpr == nil ==> (arg2 != nil && arg2.val == RVOf(nil)))
+//@   at IEvaluator.Evaluate requires {C19} @parameter-of-this-filter arg0 == call.paramExpr
 //@   at IEvaluator.Evaluate requires {C19} @parameter-in-current-scope arg1 == ctx
 //@ func RegisterFilter
 //@   ensures {C19} @duplicate-refused old(has(filters, name)) ==> (r0 != nil && mapdom(filters) == old(mapdom(filters)) && mapvals(filters) == old(mapvals(filters)))
@@ -672,12 +680,15 @@ package pongo2
 //@ func (*tagBlockNode).getBlockWrappers
 //@   at append[*NodeWrapper] requires {C10} @definition-of-the-current-template elem != nil && has(cur_tpl.blocks, node.name) && elem == cur_tpl.blocks[node.name]
 //@   decreases 0 {C10} @towards-the-leaf birth(cur_tpl) + 2
+//@   ensures {C10} @body-walk-reaches-the-leaf cur_tpl == nil && r0 == nodeWrappers
 //@ func (*tagBlockNode).Execute
 //@   at (*tagBlockNode).getBlockWrappers requires {C10} @lookup-starts-at-the-executing-root arg0 == node && arg1 == ctx.template
 //@   at (*NodeWrapper).Execute requires {C10} @most-derived-definition-runs arg0 == blockWrappers[len(blockWrappers) - 1] && arg1 == ctx && arg2 == writer
+//@   at (*NodeWrapper).Execute requires {C10} @super-chain-published-before-the-body-runs has(ctx.Private, "block") && typeis(ctx.Private["block"], "tagBlockInformation") && arr(unbox(ctx.Private["block"], "tagBlockInformation").wrappers) == arr(blockWrappers) && off(unbox(ctx.Private["block"], "tagBlockInformation").wrappers) == off(blockWrappers) && len(unbox(ctx.Private["block"], "tagBlockInformation").wrappers) == len(blockWrappers) - 1
 //@   at mapupdate requires {C10} @super-chain-is-the-rest m == ctx.Private && k == "block" && typeis(v, "tagBlockInformation") && unbox(v, "tagBlockInformation").ctx == ctx && arr(unbox(v, "tagBlockInformation").wrappers) == arr(blockWrappers) && off(unbox(v, "tagBlockInformation").wrappers) == off(blockWrappers) && len(unbox(v, "tagBlockInformation").wrappers) == len(blockWrappers) - 1
 //@ func (tagBlockInformation).Super
 //@   at (*NodeWrapper).Execute requires {C10} @next-less-derived-definition-runs arg0 == t.wrappers[len(t.wrappers) - 1] && arg1 == superCtx && fresh(superCtx)
+//@   at (*NodeWrapper).Execute requires {C10} @super-chain-published-before-the-body-runs has(superCtx.Private, "block") && typeis(superCtx.Private["block"], "tagBlockInformation") && arr(unbox(superCtx.Private["block"], "tagBlockInformation").wrappers) == arr(t.wrappers) && off(unbox(superCtx.Private["block"], "tagBlockInformation").wrappers) == off(t.wrappers) && len(unbox(superCtx.Private["block"], "tagBlockInformation").wrappers) == len(t.wrappers) - 1
 //@   at NewChildExecutionContext requires {C10} @child-of-the-block-context arg0 == t.ctx
 //@   at mapupdate requires {C10} @super-chain-shrinks m == superCtx.Private && k == "block" && typeis(v, "tagBlockInformation") && arr(unbox(v, "tagBlockInformation").wrappers) == arr(t.wrappers) && off(unbox(v, "tagBlockInformation").wrappers) == off(t.wrappers) && len(unbox(v, "tagBlockInformation").wrappers) == len(t.wrappers) - 1
 //@   ensures {C10} @empty-at-the-base len(t.wrappers) == 0 ==> (r1 == nil && r0 != nil && r0.safe)
@@ -796,3 +807,156 @@ package pongo2
 //@   at (*NodeWrapper).Execute#2 requires {C09} @else-when-unchanged arg0 == node.elseWrapper && calls("(*Value).EqualValueTo") > 0 && lastresult("(*Value).EqualValueTo") && arg1 == ctx && arg2 == writer
 //@   at TemplateWriter.Write requires {C09} @content-printed-only-when-it-differs !lastresult("bytes.Equal") && arg0 == writer
 //@   invariant 1 {C09} @all-previous-positions-compared-equal calls("(*Value).EqualValueTo") == rangeindex + 1 && (rangeindex >= 0 ==> lastresult("(*Value).EqualValueTo"))
+
+// ---- expressions: grammar levels and evaluation (C07) ----
+// token matching helpers
+//@ func (*Parser).PeekOne
+//@   ensures {C07} @one-of-the-given-symbols r0 != nil ==> (r0.Typ == typ && (exists i int :: 0 <= i && i < len(vals) && r0.Val == vals[i]) && 0 <= p.idx && p.idx < len(p.tokens) && r0 == p.tokens[p.idx])
+//@   ensures {C07} @does-not-consume p.idx == old(p.idx)
+//@ func (*Parser).MatchOne
+//@   ensures {C07} @one-of-the-given-symbols r0 != nil ==> (r0.Typ == typ && (exists i int :: 0 <= i && i < len(vals) && r0.Val == vals[i]) && p.idx == old(p.idx) + 1)
+//@   ensures {C07} @no-match-consumes-nothing r0 == nil ==> p.idx == old(p.idx)
+//@ func (*Parser).Match
+//@   ensures {C07} @the-given-symbol r0 != nil ==> (r0.Typ == typ && r0.Val == val && p.idx == old(p.idx) + 1)
+//@   ensures {C07} @no-match-consumes-nothing r0 == nil ==> p.idx == old(p.idx)
+// who may call which level:  Expression > relational > simple > term > power > factor
+//@ callers {C07} (*Parser).parseFactor (*Parser).parsePower
+//@ callers {C07} (*Parser).parsePower (*Parser).parseTerm (*Parser).parsePower
+//@ callers {C07} (*Parser).parseTerm (*Parser).parseSimpleExpression
+//@ callers {C07} (*Parser).parseSimpleExpression (*Parser).parseRelationalExpression
+//@ callers {C07} (*Parser).parseRelationalExpression (*Parser).ParseExpression (*Parser).parseRelationalExpression
+//@ func (*Parser).parseFactor
+//@   at (*Parser).ParseExpression requires {C07} @parenthesised-expression lastresult("(*Parser).Match") != nil
+//@   ensures {C07} @closing-bracket-required true
+//@ func (*Parser).parsePower
+//@   at store[power.power1] requires {C07} @base-is-a-factor v == power1 && power1 == lastresult("(*Parser).parseFactor")
+//@   at (*Parser).parsePower requires {C07} @exponent-after-caret lastresult("(*Parser).Match") != nil
+//@   at store[power.power2] requires {C07} @right-associative v == power2 && power2 == lastresult("(*Parser).parsePower") && base == pw
+//@ func (*Parser).parseTerm
+//@   at store[term.factor1]#0 requires {C07} @first-operand-is-a-power v == factor1 && factor1 == lastresult("(*Parser).parsePower")
+//@   at store[term.factor1]#1 requires {C07} @left-associative typeis(v, "*term") && unbox(v, "*term") == returnTerm && returnTerm.opToken != nil && fresh(base)
+//@   at store[term.opToken] requires {C07} @multiplicative-operator v == op && v != nil && v.Typ == TokenSymbol && (v.Val == "*" || v.Val == "/" || v.Val == "%")
+//@   at store[term.factor2] requires {C07} @right-operand-is-the-next-power v == factor2 && factor2 == lastresult("(*Parser).parsePower")
+//@ func (*Parser).parseSimpleExpression
+//@   at store[simpleExpression.term1]#0 requires {C07} @first-operand-is-a-term v == term1 && term1 == lastresult("(*Parser).parseTerm")
+//@   at store[simpleExpression.term1]#0 requires {C07} @not-binds-tighter-than-multiplication !expr.negate || !typeis(v, "*term")
+//@   at store[simpleExpression.term1]#1 requires {C07} @left-associative typeis(v, "*simpleExpression") && unbox(v, "*simpleExpression") == expr && expr.opToken != nil && fresh(base)
+//@   at store[simpleExpression.opToken] requires {C07} @additive-operator v == op && v != nil && v.Typ == TokenSymbol && (v.Val == "+" || v.Val == "-")
+//@   at store[simpleExpression.term2] requires {C07} @right-operand-is-the-next-term v == term2 && term2 == lastresult("(*Parser).parseTerm")
+//@ func (*Parser).parseRelationalExpression
+//@   at store[relationalExpression.opToken]#0 requires {C07} @comparison-operator v != nil && v.Typ == TokenSymbol && (v.Val == "==" || v.Val == "<=" || v.Val == ">=" || v.Val == "!=" || v.Val == "<>" || v.Val == ">" || v.Val == "<")
+//@   at store[relationalExpression.opToken]#1 requires {C07} @membership-operator v != nil && v.Typ == TokenKeyword && v.Val == "in"
+//@   at store[relationalExpression.expr2]#1 requires {C07} @container-is-a-simple-expression v == lastresult("(*Parser).parseSimpleExpression")
+//@ func (*Parser).ParseExpression
+//@   at store[Expression.opToken] requires {C07} @logical-operator v == op && v != nil && ((v.Typ == TokenSymbol && (v.Val == "&&" || v.Val == "||")) || (v.Typ == TokenKeyword && (v.Val == "and" || v.Val == "or")))
+//@   at store[Expression.expr2] requires {C07} @right-operand v == expr2 && expr2 == lastresult("(*Parser).ParseExpression")
+
+// per-execution node state is one map shared by all contexts of an execution (cycle, ifchanged)
+//@ func newExecutionContext
+//@   ensures {C09} @node-state-exists r0 != nil && r0.nodeState != nil
+//@ func NewChildExecutionContext
+//@   ensures {C09} @node-state-shared-with-the-parent r0.nodeState != nil && r0.nodeState == parent.nodeState
+//@ func (*ExecutionContext).setNodeState
+//@   flag inline
+// compiled expression nodes are immutable once their parser has returned them (written only while fresh)
+//@ writers {C07,C19} F|variablePart|isFunctionCall (*Parser).parseVariableOrLiteral
+//@ writers {C07,C19} F|variablePart|callingArgs (*Parser).parseVariableOrLiteral
+//@ freshonly {C07,C19} intResolver floatResolver stringResolver boolResolver variableResolver nodeFilteredVariable filterCall variablePart Expression relationalExpression simpleExpression term power nodeFilterCall
+// truncatechars counts characters (runes), keeps a prefix of the text unchanged and spends three of the
+// allowed characters on the ellipsis when there is room for it
+//@ func filterTruncatecharsHelper
+//@   ensures {C18} @non-positive-length-keeps-everything newLen <= 0 ==> r0 == s
+//@   ensures {C18} @short-text-kept (newLen > 0 && newLen >= runecount(s)) ==> r0 == runesub(s, 0, runecount(s))
+//@   ensures {C18} @no-room-for-the-ellipsis (0 < newLen && newLen < 3 && newLen < runecount(s)) ==> r0 == runesub(s, 0, newLen)
+//@   at fmt.Sprintf requires {C18} @kept-prefix-then-ellipsis newLen >= 3 && newLen < runecount(s) && arg0 == "%s..." && len(arg1) == 1 && typeis(arg1[0], "string") && unbox(arg1[0], "string") == runesub(s, 0, newLen - 3)
+//@   ensures {C18} @body-ellipsis-form (newLen >= 3 && newLen < runecount(s)) ==> r0 == lastresult("fmt.Sprintf")
+// evaluation of the expression nodes
+//@ func (*Expression).Evaluate
+//@   at IEvaluator.Evaluate#0 requires {C07} @left-operand-first arg0 == expr.expr1 && arg1 == ctx
+//@   at IEvaluator.Evaluate#1 requires {C07} @and-evaluates-the-right-operand-only-if-the-left-is-true VIsTrue(v1) && (expr.opToken.Val == "and" || expr.opToken.Val == "&&") && arg0 == expr.expr2 && arg1 == ctx
+//@   at IEvaluator.Evaluate#2 requires {C07} @or-evaluates-the-right-operand-only-if-the-left-is-false !VIsTrue(v1) && (expr.opToken.Val == "or" || expr.opToken.Val == "||") && arg0 == expr.expr2 && arg1 == ctx
+//@   at AsValue#0 requires {C07} @and-false-left !VIsTrue(v1) && typeis(arg0, "bool") && !unbox(arg0, "bool")
+//@   at AsValue#1 requires {C07} @and-is-the-truth-of-the-right typeis(arg0, "bool") && unbox(arg0, "bool") == VIsTrue(lastresult("IEvaluator.Evaluate"))
+//@   at AsValue#2 requires {C07} @or-true-left VIsTrue(v1) && typeis(arg0, "bool") && unbox(arg0, "bool")
+//@   at AsValue#3 requires {C07} @or-is-the-truth-of-the-right typeis(arg0, "bool") && unbox(arg0, "bool") == VIsTrue(lastresult("IEvaluator.Evaluate"))
+//@   ensures {C07} @body-single-operand-passes-through (expr.expr2 == nil && r1 == nil) ==> r0 == v1
+//@ func (*term).Evaluate
+//@   at IEvaluator.Evaluate#0 requires {C07} @left-operand-first arg0 == expr.factor1 && arg1 == ctx
+//@   at IEvaluator.Evaluate#1 requires {C07} @then-the-right-operand arg0 == expr.factor2 && arg1 == ctx
+//@   at AsValue#0 requires {C07} @float-product expr.opToken.Val == "*" && (VIsFloat(f1) || VIsFloat(f2)) && typeis(arg0, "float64") && unbox(arg0, "float64") == VFloat(f1) * VFloat(f2)
+//@   at AsValue#1 requires {C07} @integer-product expr.opToken.Val == "*" && !VIsFloat(f1) && !VIsFloat(f2) && typeis(arg0, "int") && unbox(arg0, "int") == wrap64(VInteger(f1) * VInteger(f2))
+//@   at AsValue#2 requires {C07} @float-quotient expr.opToken.Val == "/" && (VIsFloat(f1) || VIsFloat(f2)) && !fzero(VFloat(f2)) && typeis(arg0, "float64") && unbox(arg0, "float64") == VFloat(f1) / VFloat(f2)
+//@   at AsValue#3 requires {C07} @integer-quotient expr.opToken.Val == "/" && !VIsFloat(f1) && !VIsFloat(f2) && VInteger(f2) != 0 && typeis(arg0, "int") && unbox(arg0, "int") == wrap64(VInteger(f1) / VInteger(f2))
+//@   at AsValue#4 requires {C07} @integer-remainder expr.opToken.Val == "%" && VInteger(f2) != 0 && typeis(arg0, "int") && unbox(arg0, "int") == VInteger(f1) % VInteger(f2)
+//@   ensures {C07} @body-single-operand-passes-through (expr.factor2 == nil && r1 == nil) ==> r0 == f1
+//@   ensures {C07} @body-result-is-the-computed-value (expr.factor2 != nil && r1 == nil) ==> r0 == lastresult("AsValue")
+//@ func (*power).Evaluate
+//@   at IEvaluator.Evaluate#0 requires {C07} @base-first arg0 == expr.power1 && arg1 == ctx
+//@   at IEvaluator.Evaluate#1 requires {C07} @then-the-exponent arg0 == expr.power2 && arg1 == ctx
+//@   at math.Pow requires {C07} @base-to-the-exponent arg0 == VFloat(p1) && arg1 == VFloat(p2)
+//@   ensures {C07} @body-single-operand-passes-through (expr.power2 == nil && r1 == nil) ==> r0 == p1
+//@ func (*simpleExpression).Evaluate
+//@   at IEvaluator.Evaluate#0 requires {C07} @left-operand-first arg0 == expr.term1 && arg1 == ctx
+//@   at IEvaluator.Evaluate#1 requires {C07} @then-the-right-operand arg0 == expr.term2 && arg1 == ctx
+//@   at (*Value).Negate requires {C07} @not-applies-to-the-operand expr.negate && arg0 == t1
+//@   at AsValue#0 requires {C07} @negated-float expr.negativeSign && VIsFloat(result) && typeis(arg0, "float64") && unbox(arg0, "float64") == flit("-1.0") * VFloat(result)
+//@   at AsValue#1 requires {C07} @negated-integer expr.negativeSign && !VIsFloat(result) && VIsInteger(result) && typeis(arg0, "int") && unbox(arg0, "int") == wrap64(-1 * VInteger(result))
+//@   at AsValue#2 requires {C07} @string-concatenation expr.opToken.Val == "+" && (VIsString(result) || VIsString(t2)) && typeis(arg0, "string") && unbox(arg0, "string") == VString(result) + VString(t2)
+//@   at AsValue#3 requires {C07} @float-sum expr.opToken.Val == "+" && !VIsString(result) && !VIsString(t2) && (VIsFloat(result) || VIsFloat(t2)) && typeis(arg0, "float64") && unbox(arg0, "float64") == VFloat(result) + VFloat(t2)
+//@   at AsValue#4 requires {C07} @integer-sum expr.opToken.Val == "+" && !VIsString(result) && !VIsString(t2) && !VIsFloat(result) && !VIsFloat(t2) && typeis(arg0, "int") && unbox(arg0, "int") == wrap64(VInteger(result) + VInteger(t2))
+//@   at AsValue#5 requires {C07} @float-difference expr.opToken.Val == "-" && (VIsFloat(result) || VIsFloat(t2)) && typeis(arg0, "float64") && unbox(arg0, "float64") == VFloat(result) - VFloat(t2)
+//@   at AsValue#6 requires {C07} @integer-difference expr.opToken.Val == "-" && !VIsFloat(result) && !VIsFloat(t2) && typeis(arg0, "int") && unbox(arg0, "int") == wrap64(VInteger(result) - VInteger(t2))
+//@   ensures {C07} @body-binary-result-is-the-computed-value (expr.term2 != nil && r1 == nil) ==> r0 == lastresult("AsValue")
+//@   ensures {C07} @body-plain-operand-passes-through (expr.term2 == nil && !expr.negate && !expr.negativeSign && r1 == nil) ==> r0 == t1
+//@ func (*relationalExpression).Evaluate
+//@   at IEvaluator.Evaluate#0 requires {C07} @left-operand-first arg0 == expr.expr1 && arg1 == ctx
+//@   at IEvaluator.Evaluate#1 requires {C07} @then-the-right-operand arg0 == expr.expr2 && arg1 == ctx
+//@   at AsValue#0 requires {C07} @float-le expr.opToken.Val == "<=" && (VIsFloat(v1) || VIsFloat(v2)) && typeis(arg0, "bool") && unbox(arg0, "bool") == (VFloat(v1) <= VFloat(v2))
+//@   at AsValue#2 requires {C07} @integer-le expr.opToken.Val == "<=" && !VIsFloat(v1) && !VIsFloat(v2) && typeis(arg0, "bool") && unbox(arg0, "bool") == (VInteger(v1) <= VInteger(v2))
+//@   at AsValue#3 requires {C07} @float-ge expr.opToken.Val == ">=" && (VIsFloat(v1) || VIsFloat(v2)) && typeis(arg0, "bool") && unbox(arg0, "bool") == (VFloat(v1) >= VFloat(v2))
+//@   at AsValue#5 requires {C07} @integer-ge expr.opToken.Val == ">=" && !VIsFloat(v1) && !VIsFloat(v2) && typeis(arg0, "bool") && unbox(arg0, "bool") == (VInteger(v1) >= VInteger(v2))
+//@   at AsValue#6 requires {C07} @equal expr.opToken.Val == "==" && typeis(arg0, "bool") && unbox(arg0, "bool") == lastresult("(*Value).EqualValueTo")
+//@   at AsValue#7 requires {C07} @float-gt expr.opToken.Val == ">" && (VIsFloat(v1) || VIsFloat(v2)) && typeis(arg0, "bool") && unbox(arg0, "bool") == (VFloat(v1) > VFloat(v2))
+//@   at AsValue#9 requires {C07} @integer-gt expr.opToken.Val == ">" && !VIsFloat(v1) && !VIsFloat(v2) && typeis(arg0, "bool") && unbox(arg0, "bool") == (VInteger(v1) > VInteger(v2))
+//@   at AsValue#10 requires {C07} @float-lt expr.opToken.Val == "<" && (VIsFloat(v1) || VIsFloat(v2)) && typeis(arg0, "bool") && unbox(arg0, "bool") == (VFloat(v1) < VFloat(v2))
+//@   at AsValue#12 requires {C07} @integer-lt expr.opToken.Val == "<" && !VIsFloat(v1) && !VIsFloat(v2) && typeis(arg0, "bool") && unbox(arg0, "bool") == (VInteger(v1) < VInteger(v2))
+//@   at AsValue#13 requires {C07} @not-equal (expr.opToken.Val == "!=" || expr.opToken.Val == "<>") && typeis(arg0, "bool") && unbox(arg0, "bool") == !lastresult("(*Value).EqualValueTo")
+//@   at AsValue#14 requires {C07} @membership expr.opToken.Val == "in" && typeis(arg0, "bool") && unbox(arg0, "bool") == lastresult("(*Value).Contains")
+//@   at (*Value).EqualValueTo requires {C07} @compares-left-with-right arg0 == v1 && arg1 == v2
+//@   at (*Value).Contains requires {C07} @right-contains-left arg0 == v2 && arg1 == v1
+//@   ensures {C07} @body-binary-result-is-the-computed-value (expr.expr2 != nil && r1 == nil) ==> r0 == lastresult("AsValue")
+//@   ensures {C07} @body-single-operand-passes-through (expr.expr2 == nil && r1 == nil) ==> r0 == v1
+// kinds and coercions behind the arithmetic (reflect.Kind: Bool 1, Int..Int64 2..6, Uint..Uint64 7..11, Float32/64 13/14, String 24)
+//@ func (*Value).IsFloat
+//@   ensures {C07} @float-kinds r0 == (RVKind(Resolved(v.val)) == 13 || RVKind(Resolved(v.val)) == 14)
+//@ func (*Value).IsInteger
+//@   ensures {C07} @integer-kinds r0 == (2 <= RVKind(Resolved(v.val)) && RVKind(Resolved(v.val)) <= 11)
+//@ func (*Value).IsString
+//@   ensures {C07} @string-kind r0 == (RVKind(Resolved(v.val)) == 24)
+//@ func (*Value).IsBool
+//@   ensures {C07} @bool-kind r0 == (RVKind(Resolved(v.val)) == 1)
+//@ func (*Value).Integer
+//@   ensures {C07} @integers-as-they-are (2 <= RVKind(Resolved(v.val)) && RVKind(Resolved(v.val)) <= 6) ==> r0 == RVInt(Resolved(v.val))
+//@   ensures {C07} @unsigned-reinterpreted (7 <= RVKind(Resolved(v.val)) && RVKind(Resolved(v.val)) <= 11) ==> r0 == wrap64(RVUint(Resolved(v.val)))
+//@   ensures {C07} @floats-truncated (RVKind(Resolved(v.val)) == 13 || RVKind(Resolved(v.val)) == 14) ==> r0 == toint(RVFloat(Resolved(v.val)))
+//@   ensures {C07} @booleans-and-other-kinds-count-as-zero (RVKind(Resolved(v.val)) == 1 || RVKind(Resolved(v.val)) == 0 || RVKind(Resolved(v.val)) >= 15 && RVKind(Resolved(v.val)) != 24) ==> r0 == 0
+//@ func (*Value).Float
+//@   ensures {C07} @floats-as-they-are (RVKind(Resolved(v.val)) == 13 || RVKind(Resolved(v.val)) == 14) ==> r0 == RVFloat(Resolved(v.val))
+//@   ensures {C07} @integers-converted (2 <= RVKind(Resolved(v.val)) && RVKind(Resolved(v.val)) <= 6) ==> r0 == tofloat(RVInt(Resolved(v.val)))
+//@ func (*Value).IsTrue
+//@   ensures {C07,C09} @integers-are-true-when-non-zero (2 <= RVKind(Resolved(v.val)) && RVKind(Resolved(v.val)) <= 6) ==> r0 == (RVInt(Resolved(v.val)) != 0)
+//@   ensures {C07,C09} @unsigned-are-true-when-non-zero (7 <= RVKind(Resolved(v.val)) && RVKind(Resolved(v.val)) <= 11) ==> r0 == (RVUint(Resolved(v.val)) != 0)
+//@   ensures {C07,C09} @floats-are-true-when-non-zero (RVKind(Resolved(v.val)) == 13 || RVKind(Resolved(v.val)) == 14) ==> r0 == !fzero(RVFloat(Resolved(v.val)))
+//@   ensures {C07,C09} @booleans-are-themselves RVKind(Resolved(v.val)) == 1 ==> r0 == RVBool(Resolved(v.val))
+//@   ensures {C07,C09} @collections-and-strings-are-true-when-non-empty (RVKind(Resolved(v.val)) == 17 || RVKind(Resolved(v.val)) == 18 || RVKind(Resolved(v.val)) == 21 || RVKind(Resolved(v.val)) == 23 || RVKind(Resolved(v.val)) == 24) ==> r0 == (RVLen(Resolved(v.val)) > 0)
+//@   ensures {C07,C09} @nil-is-false RVKind(Resolved(v.val)) == 0 ==> !r0
+//@ func (*Value).Negate
+//@   ensures {C07} @integers-complemented (2 <= RVKind(Resolved(v.val)) && RVKind(Resolved(v.val)) <= 11) ==> (r0 != nil && VIsTrue(r0) == !VIsTrue(v))
+//@   ensures {C07} @floats-complemented (RVKind(Resolved(v.val)) == 13 || RVKind(Resolved(v.val)) == 14) ==> (r0 != nil && VIsTrue(r0) == !VIsTrue(v))
+//@   ensures {C07} @booleans-complemented RVKind(Resolved(v.val)) == 1 ==> (r0 != nil && VIsTrue(r0) == !VIsTrue(v))
+//@   ensures {C07} @collections-complemented (RVKind(Resolved(v.val)) == 17 || RVKind(Resolved(v.val)) == 21 || RVKind(Resolved(v.val)) == 23 || RVKind(Resolved(v.val)) == 24) ==> (r0 != nil && VIsTrue(r0) == !VIsTrue(v))
+// canonical printed form
+//@ func (*Value).String
+//@   at strconv.FormatInt requires {C07} @integers-in-decimal arg1 == 10 && arg0 == RVInt(Resolved(v.val))
+//@   at strconv.FormatUint requires {C07} @unsigned-in-decimal arg1 == 10
+//@   at fmt.Sprintf requires {C07} @floats-with-six-decimals arg0 == "%f" && len(arg1) == 1 && typeis(arg1[0], "float64") && unbox(arg1[0], "float64") == RVFloat(Resolved(v.val))
